@@ -61,6 +61,7 @@ func evolvePair(r *gen.Rand, c *gen.EvolveCfg) (w, t *schema.Struct, class strin
 	tc := gen.DefaultTypeCfg()
 	tc.BigIDs = r.Chance(1, 6)
 	tc.Extras = false
+	tc.NoCopy = r.Chance(1, 3) // readers keep the option: required+nocopy, optional-pointer nocopy ...
 	w = gen.RandomStruct(r, tc, 0)
 	t = gen.Evolve(r, w, c, 0)
 	return w, t, "evolved"
@@ -136,7 +137,9 @@ func runC03(c *harness.Ctx, idx int) {
 	}
 	g, reg := mon.GuardedCopy(msg, false)
 	defer reg.Free()
+	setPoison(idx%2 == 1) // pool sanitizer in every other case
 	dr := fDecode(g, act.Interface())
+	setPoison(false)
 	sig := structSig(t)
 	switch {
 	case dr.panicked():
